@@ -117,8 +117,9 @@ func allChecksRaw() []*Check {
 			Assume: append([]string{parseContract, pathContract, fsModel, encStub}, commonAssume...),
 		},
 		{
-			ID:    "C04",
-			Files: files(filesProg, []string{"gtree/c04.go"}),
+			ID:              "C04",
+			Files:           files(filesProg, []string{"gtree/c04.go", "gtree/c04_native.go"}),
+			NativeContracts: []string{"VerifC04Hostile"},
 			Quick: []Job{
 				gj("C04.md.n5", "VerifC04", 5, "C04.nil", "C04.iso", "C04.order.count"),
 				gj("C04.root.n5", "VerifC04Root", 5, "C04.root.nil", "C04.root.iso"),
